@@ -1215,6 +1215,8 @@ def run(chk: Check) -> int:
                 "the transaction) left by an exception that the enclosing body caught, a body that returned and committed after that, "
                 "a multi-key write (set_many / delete_many) inside a transaction - as the first write of a locking transaction, and a serializable "
                 "transaction committing it with another task released between the commit's backend commands -, "
+                "an abandoned block on the shared context object finalised from another context - while another task is suspended inside its own "
+                "block on that object, and that task then returning -, "
                 "two tasks inside ONE shared context object at once (one failing, the other committing; the object re-entered by its own task), "
                 "an explicit tx.commit() / tx.rollback() in the "
                 "middle of a body, a lock given back by it and taken again later in the same block, a block ended by an exception after an explicit "
